@@ -1,7 +1,9 @@
 use crate::report::Unit;
+pub mod c06;
 pub mod c07;
 pub mod c09;
 pub mod c12;
+pub mod c14;
 pub mod c15;
 pub mod c16;
 pub mod c17;
@@ -16,6 +18,7 @@ pub fn units(id: &str, tier: &str) -> Option<Vec<Unit>> {
         "C02" => seqprops::c02(thorough),
         "C04" => seqprops::c04(thorough),
         "C05" => seqprops::c05(thorough),
+        "C06" => c06::units(thorough),
         "C07" => c07::units(thorough),
         "C08" => seqprops::c08(thorough),
         "C09" => c09::units(thorough),
@@ -23,6 +26,7 @@ pub fn units(id: &str, tier: &str) -> Option<Vec<Unit>> {
         "C11" => seqprops::c11(thorough),
         "C12" => c12::units(thorough),
         "C13" => c13::units(thorough),
+        "C14" => c14::units(thorough),
         "C15" => c15::units(thorough),
         "C16" => c16::units(thorough),
         "C17" => c17::units(thorough),
